@@ -11,8 +11,12 @@
 //!   planted Rejected with Lua bytes written -> violation `C03/wrote-lua-on-error`
 //!   planted Rejected, >= 1 error, 0 bytes   -> pass
 //!   planted panicked   -> discard (C07's business), labelled
-//! Dev switches: `C03_CENSUS=1` turns `accepted` violations into passes labelled `leak:<kind>:<use>` (to see the
-//! whole matrix at once), `C03_AVOID=0|1` forces the known-finding avoidance switch off / on.
+//! Two defects of /repo were found with this check while it was built and are fixed there since (25e04d4: unary `-`
+//! never checked its operand when the value was dropped or sat in a tuple; 02a5b83: a `ret` of the wrong type below an
+//! `if` without `else` was never compared with the declared return type). Both spellings stay in the catalogue at full
+//! weight (kinds `neg-non-number`, `ret-in-if`); there is no known-finding avoidance switch at present.
+//! Dev switches: `C03_CENSUS=1` turns `accepted` violations into passes labelled `leak:<kind>:<use>:<placement>` (to
+//! see the whole matrix at once), `C03_SAVE_LEAK=DIR` / `C03_SAVE_TWIN=DIR` dump those programs / rejected twins.
 use crate::common::*;
 use arbitrary::Unstructured;
 use serde::{Deserialize, Serialize};
@@ -33,7 +37,11 @@ use cat::{Env, Form, Sel, P};
 pub struct C03;
 pub const CHECK: C03 = C03;
 pub fn plan(t: Tier) -> Plan {
-    Plan::new(t.pick(5_000, 100_000), t.pick(1800, 3000))
+    let mut p = Plan::new(t.pick(5_000, 100_000), t.pick(1800, 3000));
+    // the first structural shrink step already reduces a failing case to "the plant alone in `start`";
+    // long tape shrinking (three compiles per attempt) buys nothing
+    p.max_shrink_iters = 40;
+    p
 }
 
 #[derive(Clone, Serialize, Deserialize)]
@@ -53,8 +61,6 @@ pub struct Case {
     pub embed: String,
     /// compiled as an imported module (`/p/lib.sy` used from `/p/main.sy`)
     pub module: bool,
-    /// known-finding avoidance switch was on when the case was generated
-    pub avoid: bool,
     /// how the site was chosen: stmt-site | expr-site | new-unused-fn | new-global
     pub mode: String,
     /// placement reported by `syltmodel::plant` for the chosen site (cross-checked against c03_loc)
@@ -93,20 +99,6 @@ fn default_text(t: &Ty) -> String {
         Ty::Tuple(ts) => format!("({})", ts.iter().map(default_text).collect::<Vec<_>>().join(", ")),
         _ => "0".into(),
     }
-}
-
-/// Known findings (reported, see the check's report); with the avoidance switch on the generator stays away
-/// from their triggers:
-/// * `neg-non-number`: the `Neg` constraint is only *added* by the type checker and is checked when the operand's type
-///   variable is next unified; a negated non-number whose value is dropped (expression statement), or that sits in a
-///   tuple literal, is accepted. Avoidance: plant it only where its value is consumed by a unification.
-/// * `ret-in-if`: an `if` without `else` drops the return types of its branches, so a `ret` of the wrong type inside
-///   it is accepted. Avoidance: no wrong `ret` below an else-less `if`.
-fn neg_leaky_embed(embed: &str) -> bool {
-    matches!(embed, "unused-expression" | "paren-unused" | "closure-unused" | "tuple-element")
-}
-fn neg_leaky_site(l: &loc::Loc) -> bool {
-    l.value_unused || l.in_tuple || matches!(l.placement, "element" | "returnvalue")
 }
 
 /// top-level declarations the planted text refers to (part of the plant): the blob `Zqb` and the annotated
@@ -215,7 +207,7 @@ fn available(want: Option<&Ty>, env: &Env, forbid: &[&str], sel: &Sel) -> Vec<&'
 
 /// choose a kind uniformly among those with a spelling for a statement-level site (or a global initialiser when
 /// `env.stmts` is false) and, for expression plants, a wrapper
-fn choose_stmt_level(env: &Env, avoid: bool, forbid: &[&str], sel: &mut Sel) -> Option<Chosen> {
+fn choose_stmt_level(env: &Env, forbid: &[&str], sel: &mut Sel) -> Option<Chosen> {
     let kinds = available(None, env, forbid, sel);
     if kinds.is_empty() {
         return None;
@@ -225,29 +217,26 @@ fn choose_stmt_level(env: &Env, avoid: bool, forbid: &[&str], sel: &mut Sel) -> 
     Some(match p.form.clone() {
         Form::Stmt => Chosen { bad: p.bad.clone(), good: p.good.clone(), embed: "statement".into(), plant: p },
         Form::Expr(_) => {
-            let neg_avoid = |w: &str| avoid && kind == "neg-non-number" && neg_leaky_embed(w);
             if env.stmts {
                 let ws: Vec<&str> =
-                    cat::WRAPPERS.iter().filter(|(w, impure)| !(*impure && env.pure_) && !neg_avoid(w)).map(|(w, _)| *w).collect();
+                    cat::WRAPPERS.iter().filter(|(_, impure)| !(*impure && env.pure_)).map(|(w, _)| *w).collect();
                 let w = *sel.pick(&ws);
                 Chosen { bad: cat::wrap(w, &p.bad, env.pure_), good: cat::wrap(w, &p.good, env.pure_), embed: w.into(), plant: p }
             } else {
-                let ws: Vec<&str> = ["globalinit", "tuple-element", "list-element"].iter().copied().filter(|w| !neg_avoid(w)).collect();
-                let w = *sel.pick(&ws);
+                let w = *sel.pick(&["globalinit", "tuple-element", "list-element"]);
                 Chosen { bad: cat::wrap_expr(w, &p.bad), good: cat::wrap_expr(w, &p.good), embed: w.into(), plant: p }
             }
         }
     })
 }
 
-fn choose_expr_level(ty: &Ty, l: &loc::Loc, avoid: bool, sel: &mut Sel) -> Option<Chosen> {
+fn choose_expr_level(ty: &Ty, l: &loc::Loc, sel: &mut Sel) -> Option<Chosen> {
     if l.placement == "condition" && *ty == Ty::Bool && sel.chance(1, 3) {
         let p = cat::cond_literal(sel);
         return Some(Chosen { bad: format!("({})", p.bad), good: format!("({})", p.good), embed: "replaced".into(), plant: p });
     }
     let env = Env { pure_: l.in_pure, ret: None, stmts: false };
-    let forbid: &[&str] = if avoid && neg_leaky_site(l) { &["neg-non-number"] } else { &[] };
-    let kinds = available(Some(ty), &env, forbid, sel);
+    let kinds = available(Some(ty), &env, &[], sel);
     if kinds.is_empty() {
         return None;
     }
@@ -275,7 +264,7 @@ struct Built {
 }
 
 impl C03 {
-    fn build(&self, base: Program, avoid: bool, module: bool, sel: &mut Sel) -> Option<Case> {
+    fn build(&self, base: Program, module: bool, sel: &mut Sel) -> Option<Case> {
         let mut prog = base;
         let mode = match sel.below(20) {
             0..=9 => 0,
@@ -298,7 +287,7 @@ impl C03 {
                 let site = &expr_sites[idx];
                 let mut q = plant::replace_expr(&prog, idx, e(site.ty.clone(), EKind::Raw(MARKER.into())));
                 if let Some(l) = loc::find(&q, MARKER, true) {
-                    if let Some(c) = choose_expr_level(&site.ty, &l, avoid, sel) {
+                    if let Some(c) = choose_expr_level(&site.ty, &l, sel) {
                         loc::apply(&mut q, MARKER, true, loc::Action::SetText(c.bad.clone()));
                         prog = q;
                         let base_text = format!("({})", default_text(&site.ty));
@@ -313,17 +302,7 @@ impl C03 {
             let fn_ret = if sel.chance(1, 2) { Some(*sel.pick(&cat::PRIMS)) } else { None };
             let nesting = sel.below(6);
             let env = Env { pure_, ret: if nesting == 4 { None } else { fn_ret }, stmts: true };
-            // nesting 1 is an `if` without `else`
-            let forbid: &[&str] = if avoid {
-                if nesting == 1 {
-                    &["ret-in-if", "ret-enclosing"]
-                } else {
-                    &["ret-in-if"]
-                }
-            } else {
-                &[]
-            };
-            if let Some(c) = choose_stmt_level(&env, avoid, forbid, sel) {
+            if let Some(c) = choose_stmt_level(&env, &[], sel) {
                 let raw = Stmt::Raw(c.bad.clone());
                 let inner: Vec<Stmt> = match nesting {
                     0 | 5 => vec![raw],
@@ -356,7 +335,7 @@ impl C03 {
         }
         if mode == 3 {
             let env = Env { pure_: false, ret: None, stmts: false };
-            if let Some(c) = choose_stmt_level(&env, avoid, &[], sel) {
+            if let Some(c) = choose_stmt_level(&env, &[], sel) {
                 let ty = match &c.plant.form {
                     Form::Expr(Some(t)) if c.embed == "globalinit" => t.clone(),
                     _ => Ty::Int,
@@ -378,18 +357,9 @@ impl C03 {
             let idx = idxs[sel.below(idxs.len())];
             let site = &stmt_sites[idx];
             let mut q = plant::insert_stmt(&prog, idx, Stmt::Raw(MARKER.into()));
-            let l = loc::find(&q, MARKER, false)?;
+            loc::find(&q, MARKER, false)?;
             let env = Env { pure_: site.ctx.in_pure, ret: P::of(&site.ctx.ret), stmts: true };
-            let forbid: &[&str] = if avoid {
-                if l.in_elseless_if {
-                    &["ret-in-if", "ret-enclosing"]
-                } else {
-                    &["ret-in-if"]
-                }
-            } else {
-                &[]
-            };
-            let mut c = choose_stmt_level(&env, avoid, forbid, sel)?;
+            let mut c = choose_stmt_level(&env, &[], sel)?;
             // an expression statement at the end of a branch would become the branch's value: mostly keep it inside
             if matches!(site.ctx.placement, plant::Placement::Branch | plant::Placement::CaseArm) && site.pos == site.block_len && sel.chance(3, 4) {
                 c.bad.push_str("\nzq0 :: 0");
@@ -414,7 +384,6 @@ impl C03 {
             is_expr,
             embed: c.embed,
             module,
-            avoid,
             mode: mode_name.to_string(),
             site_placement,
         })
@@ -446,17 +415,10 @@ impl Check for C03 {
         let mut t = Tape::new(u);
         // plant choices are drawn before the base program so that a short tape does not pin them to 0
         let mut sel = Sel { bytes: (0..40).map(|_| t.byte()).collect(), i: 0 };
-        // known-finding avoidance (DESIGN §2.6): on for 80 % of the budget
-        let mut avoid = !sel.chance(1, 5);
-        match std::env::var("C03_AVOID").as_deref() {
-            Ok("0") => avoid = false,
-            Ok("1") => avoid = true,
-            _ => {}
-        }
         let module = sel.chance(1, 6);
         let cfg = GenCfg::core(tier == Tier::Thorough);
         let base = Gen::new(&mut t, cfg).program();
-        self.build(base, avoid, module, &mut sel)
+        self.build(base, module, &mut sel)
     }
 
     fn evaluate(&self, case: &Case, labels: &mut Labels) -> Verdict {
@@ -515,9 +477,6 @@ impl Check for C03 {
         }
         if case.module {
             labels.add("imported-module");
-        }
-        if !case.avoid {
-            labels.add("avoidance-off");
         }
         if !case.site_placement.is_empty() && case.site_placement != l.placement {
             labels.add("placement-disagrees");
@@ -696,10 +655,6 @@ impl Check for C03 {
             return Err("c03_loc and syltmodel::plant disagree about a placement".into());
         }
         for k in cat::ALL_KINDS {
-            // (`ret-in-if` is only planted while the avoidance switch is off; C03_AVOID=1 forces it on)
-            if *k == "ret-in-if" && s.label("avoidance-off") == 0 {
-                continue;
-            }
             if s.label(&format!("kind:{}", k)) == 0 {
                 return Err(format!("mismatch kind {} was never planted", k));
             }
